@@ -100,6 +100,21 @@ def chk_single(inp):
     tau2 = A.coherenceTime(numpy.array([c * k]), numpy.array([v * k ** 2]), lam * k ** 3)
     if rel(tau2 / tau, k ** (-0.6 + 3.6 - 2)) > 1e-8:
         return bad("coherence time exponents", tau2 / tau, k ** 1.0)
+    # integer-typed altitude / wind arrays (numpy.arange(0, 25000, 250), numpy.array([10000]) ...) are legal inputs
+    for hi in (10000, 6209, 25000, 150):
+        for dt in ("int64", "int32"):
+            i1 = A.isoplanaticAngle(numpy.array([c]), numpy.array([hi], dtype=dt), lam)
+            i2 = A.isoplanaticAngle(numpy.array([c]), numpy.array([float(hi)]), lam)
+            if not rel(i1, i2) <= 1e-12:
+                return bad("isoplanaticAngle with an integer-typed altitude array (h=%d, %s) differs from the float altitude" % (hi, dt), float(numpy.asarray(i1).ravel()[0]), float(numpy.asarray(i2).ravel()[0]))
+            t1 = A.coherenceTime(numpy.array([c]), numpy.array([hi // 100 + 1], dtype=dt), lam)
+            t2 = A.coherenceTime(numpy.array([c]), numpy.array([float(hi // 100 + 1)]), lam)
+            if not rel(t1, t2) <= 1e-12:
+                return bad("coherenceTime with an integer-typed wind array (%s) differs from the float wind" % dt, float(numpy.asarray(t1).ravel()[0]), float(numpy.asarray(t2).ravel()[0]))
+    hs = numpy.arange(0, 25000, 250)
+    cs = numpy.full(len(hs), c / len(hs))
+    if not rel(A.isoplanaticAngle(cs, hs, lam), A.isoplanaticAngle(cs, hs.astype(float), lam)) <= 1e-12:
+        return bad("isoplanaticAngle on an integer altitude grid arange(0, 25000, 250) differs from the same grid as floats")
     if rel(A.isoplanaticAngle(numpy.array([c]), numpy.array([h])), A.isoplanaticAngle(numpy.array([c]), numpy.array([h]), 500e-9)) > TOL:
         return bad("isoplanaticAngle default wavelength", None, None)
     if rel(A.coherenceTime(numpy.array([c]), numpy.array([v])), A.coherenceTime(numpy.array([c]), numpy.array([v]), 500e-9)) > TOL:
@@ -160,6 +175,18 @@ def chk_axis(inp):
                     want[idx] = F(c2[idx], h2[idx], 6e-7)
                 if numpy.shape(got) != want.shape or rel(got, want) > 1e-9:
                     return bad("%s on a stack (shape %s, axis %s) differs from looping over the profiles" % (fn, shape, axis), numpy.asarray(got).tolist(), want.tolist())
+                # one altitude (wind) vector common to all profiles of the stack, the usual way to hold several profiles on one grid
+                h1 = 10 ** rng.uniform(2, 4, size=shape[ax])
+                try:
+                    got1 = F(cn2, h1, 6e-7, **kw)
+                except Exception as ex:
+                    return bad("%s on a stack (shape %s, axis %s) with one common 1-d altitude / wind vector raises %s" % (fn, shape, axis, type(ex).__name__), repr(ex)[:200], "the per-profile values")
+                want1 = numpy.empty(c2.shape[:-1])
+                for idx in numpy.ndindex(*c2.shape[:-1]):
+                    want1[idx] = F(c2[idx], h1, 6e-7)
+                if numpy.shape(got1) != want1.shape or rel(got1, want1) > 1e-9:
+                    return bad("%s on a stack (shape %s, axis %s) with one common 1-d altitude / wind vector differs from looping over the profiles" % (fn, shape, axis),
+                               numpy.asarray(got1).tolist(), want1.tolist())
 
 
 def fam_axis(tier, seed):
